@@ -164,4 +164,197 @@ theorem C13_stack_invariant_fill (st : St) : ∀ f ∈ (stackFill st).slotFlagSt
 theorem C13_fill_marks_all (st : St) : ∀ f ∈ (stackFill st).slotFlagStack, f = 2 := by
   intro f hf; simp [stackFill] at hf; exact hf.2.symm
 
+/-! ### the cover theorem lifted through the WHOLE attribute fold -/
+
+/-- facts only grow -/
+def Mono (a b : AttrAcc) : Prop :=
+  (a.hasDynamicKeys = true → b.hasDynamicKeys = true) ∧ (a.hasClass = true → b.hasClass = true)
+    ∧ (a.hasStyle = true → b.hasStyle = true) ∧ (∀ k ∈ a.dynamicProps, k ∈ b.dynamicProps)
+
+theorem Mono.refl (a : AttrAcc) : Mono a a := ⟨id, id, id, fun _ h => h⟩
+theorem Mono.trans {a b c : AttrAcc} (h1 : Mono a b) (h2 : Mono b c) : Mono a c :=
+  ⟨fun h => h2.1 (h1.1 h), fun h => h2.2.1 (h1.2.1 h), fun h => h2.2.2.1 (h1.2.2.1 h), fun k h => h2.2.2.2 k (h1.2.2.2 k h)⟩
+
+theorem vmodelStep_mono (o : Opts) (c : Bool) (a t m : Option Node) (v : Node) (acc : AttrAcc) :
+    Mono acc (vmodelStep o c a t m v acc) := by
+  unfold vmodelStep Mono
+  simp only
+  refine ⟨?_, ?_, ?_, ?_⟩ <;> intros <;> (repeat' split) <;> simp_all [mem_insertUnique]
+
+
+theorem mono_of_facts {a b b' : AttrAcc} (h : Mono a b') (h1 : b.hasDynamicKeys = b'.hasDynamicKeys) (h2 : b.hasClass = b'.hasClass)
+    (h3 : b.hasStyle = b'.hasStyle) (h4 : b.dynamicProps = b'.dynamicProps) : Mono a b := by
+  unfold Mono at *
+  rw [h1, h2, h3, h4]; exact h
+
+theorem plainPart_mono (o : Opts) (c : Bool) (attrName : String) (valueN attrValue : Node) (acc : AttrAcc) (st : St) :
+    Mono acc
+      (let isTransformOn := o.transformOn && (attrName == "on" || attrName == "nativeOn")
+       let acc := plainAttrFlags c attrName valueN isTransformOn acc
+       if isTransformOn then
+         let (helper, st) :=
+           (match st.transformOnHelper with
+            | some h => (h, st)
+            | none => let (h, st) := st.fresh "_transformOn"; (h, { st with transformOnHelper := some h }))
+         let acc :=
+           if !acc.props.isEmpty then
+             { acc with mergeArgs := acc.mergeArgs ++ [nObject (if o.mergeProps then dedupeProps acc.props else acc.props)],
+                        props := [] }
+           else acc
+         (({ acc with mergeArgs := acc.mergeArgs ++ [nCall helper [nArg attrValue]] } : AttrAcc), st)
+       else (({ acc with props := acc.props ++ [nKV (nStr attrName) attrValue] } : AttrAcc), st)).1 := by
+  have hp := C13_plain_monotone c attrName valueN (o.transformOn && (attrName == "on" || attrName == "nativeOn")) acc
+  simp only at hp ⊢
+  by_cases ht : (o.transformOn && (attrName == "on" || attrName == "nativeOn")) = true
+  · simp only [ht, if_true] at hp ⊢
+    by_cases he : (!(plainAttrFlags c attrName valueN true acc).props.isEmpty) = true
+    · simp only [he, if_true]
+      exact mono_of_facts hp rfl rfl rfl rfl
+    · simp only [he]
+      exact mono_of_facts hp rfl rfl rfl rfl
+  · simp only [ht] at hp ⊢
+    exact mono_of_facts hp rfl rfl rfl rfl
+
+theorem attrStep_mono (o : Opts) (c : Bool) (a : Node) (l : Option Node) (acc : AttrAcc) (st : St) :
+    Mono acc (attrStep o c a l acc st).1 := by
+  unfold attrStep
+  split
+  · -- an attribute
+    simp only
+    split
+    · -- a directive
+      split
+      · exact ⟨id, id, id, fun _ h => h⟩
+      · exact ⟨id, id, id, fun k h => mem_insertUnique _ _ _ h⟩
+      · exact ⟨id, id, id, fun k h => mem_insertUnique _ _ _ h⟩
+      · exact vmodelStep_mono o c _ _ _ _ acc
+      · exact ⟨id, id, id, fun _ h => h⟩
+    · -- a plain attribute
+      exact plainPart_mono o c _ _ _ acc _
+  · -- a spread
+    simp only
+    split <;> split <;> (try split) <;> exact ⟨fun _ => rfl, id, id, fun _ h => h⟩
+  · exact Mono.refl _
+
+
+/-- the lowering of an element / fragment written directly as a plain attribute's value (`trAttrs`' first half) -/
+def lowerOf (o : Opts) (env : Env) (a : Node) (st : St) : Option Node × St :=
+  match a with
+  | .mk .jsxAttr _ [nameN, .mk .jsxElement eas eks] =>
+    if isDirectiveAttrName (attrNameOf nameN) then (none, st)
+    else let (e, st) := trElement o env (.mk .jsxElement eas eks) st; (some e, st)
+  | .mk .jsxAttr _ [nameN, .mk .jsxFragment eas eks] =>
+    if isDirectiveAttrName (attrNameOf nameN) then (none, st)
+    else let (e, st) := trFragment o env (.mk .jsxFragment eas eks) st; (some e, st)
+  | _ => (none, st)
+
+/-- every step of the fold over the attributes is one `attrStep` (with the lowered value, if the value was an element) -/
+theorem trAttrs_cons (o : Opts) (env : Env) (c : Bool) (a : Node) (rest : List Node) (acc : AttrAcc) (st : St) :
+    trAttrs o env c (a :: rest) acc st
+      = trAttrs o env c rest (attrStep o c a (lowerOf o env a st).1 acc (lowerOf o env a st).2).1
+          (attrStep o c a (lowerOf o env a st).1 acc (lowerOf o env a st).2).2 := by
+  conv => lhs; rw [trAttrs.eq_def]
+  rfl
+
+theorem trAttrs_mono (o : Opts) (env : Env) (c : Bool) : ∀ (attrs : List Node) (acc : AttrAcc) (st : St),
+    Mono acc (trAttrs o env c attrs acc st).1
+  | [], acc, st => by unfold trAttrs; exact Mono.refl _
+  | a :: rest, acc, st => by
+    rw [trAttrs_cons]
+    exact (attrStep_mono o c a _ acc _).trans (trAttrs_mono o env c rest _ _)
+
+theorem trAttrs_append (o : Opts) (env : Env) (c : Bool) : ∀ (pre post : List Node) (acc : AttrAcc) (st : St),
+    trAttrs o env c (pre ++ post) acc st
+      = trAttrs o env c post (trAttrs o env c pre acc st).1 (trAttrs o env c pre acc st).2
+  | [], post, acc, st => by simp [trAttrs]
+  | a :: pre, post, acc, st => by
+    simp only [List.cons_append]
+    rw [trAttrs_cons, trAttrs_cons]
+    exact trAttrs_append o env c pre post _ _
+
+/-- the text of a plain attribute's name -/
+def attrNameText (nameN : Node) : String :=
+  match attrNameOf nameN with
+  | .plain s => s
+  | .ns ns n => ns ++ ":" ++ n
+  | .bad => ""
+
+theorem plainPart_cover (o : Opts) (attrName : String) (valueN attrValue : Node) (acc : AttrAcc) (st : St)
+    (hnc : (if isNone valueN then false else isAttrValueConstant valueN) = false)
+    (hk : attrName ≠ "key") (hr : attrName ≠ "ref")
+    (hton : (o.transformOn && (attrName == "on" || attrName == "nativeOn")) = false) :
+    let r :=
+      (let isTransformOn := o.transformOn && (attrName == "on" || attrName == "nativeOn")
+       let acc := plainAttrFlags false attrName valueN isTransformOn acc
+       if isTransformOn then
+         let (helper, st) :=
+           (match st.transformOnHelper with
+            | some h => (h, st)
+            | none => let (h, st) := st.fresh "_transformOn"; (h, { st with transformOnHelper := some h }))
+         let acc :=
+           if !acc.props.isEmpty then
+             { acc with mergeArgs := acc.mergeArgs ++ [nObject (if o.mergeProps then dedupeProps acc.props else acc.props)],
+                        props := [] }
+           else acc
+         (({ acc with mergeArgs := acc.mergeArgs ++ [nCall helper [nArg attrValue]] } : AttrAcc), st)
+       else (({ acc with props := acc.props ++ [nKV (nStr attrName) attrValue] } : AttrAcc), st)).1
+    (attrName = "class" → r.hasClass = true) ∧ (attrName = "style" → r.hasStyle = true)
+      ∧ (attrName ≠ "class" → attrName ≠ "style" → attrName ∈ r.dynamicProps) := by
+  have hc := C13_plain_cover attrName valueN acc hnc hk hr
+  simp only [hton, Bool.false_eq_true, if_false] at hc ⊢
+  exact hc
+
+/-- the step at a plain, non-constant attribute of an ELEMENT that is not merged through transformOn covers it -/
+theorem attrStep_cover (o : Opts) (as : List String) (nameN valueN : Node) (l : Option Node) (acc : AttrAcc) (st : St)
+    (hplain : isDirectiveAttrName (attrNameOf nameN) = false)
+    (hnc : (if isNone valueN then false else isAttrValueConstant valueN) = false)
+    (hk : attrNameText nameN ≠ "key") (hr : attrNameText nameN ≠ "ref")
+    (hton : (o.transformOn && (attrNameText nameN == "on" || attrNameText nameN == "nativeOn")) = false) :
+    let r := (attrStep o false (.mk .jsxAttr as [nameN, valueN]) l acc st).1
+    (attrNameText nameN = "class" → r.hasClass = true) ∧ (attrNameText nameN = "style" → r.hasStyle = true)
+      ∧ (attrNameText nameN ≠ "class" → attrNameText nameN ≠ "style" → attrNameText nameN ∈ r.dynamicProps) := by
+  have hc := plainPart_cover o (attrNameText nameN) valueN (attrValueExpr valueN l st).1 acc (attrValueExpr valueN l st).2 hnc hk hr hton
+  unfold attrNameText at hc ⊢
+  simp only [attrStep, hplain, Bool.false_eq_true, if_false]
+  exact hc
+
+/-- **The cover theorem for a whole element**: whatever else is written on the element — before or after, directives,
+    v-models, spreads, attributes whose values are elements — a non-constant plain attribute (other than key/ref, not
+    merged through transformOn) of an ELEMENT host is covered by the analysis result: either the dynamic-keys fact
+    (flag FULL_PROPS) holds, or `class`/`style` have their fact and any other name is in the dynamic-prop list. -/
+theorem C13_cover_whole_element (o : Opts) (env : Env) (pre post : List Node) (as : List String) (nameN valueN : Node) (st : St)
+    (hplain : isDirectiveAttrName (attrNameOf nameN) = false)
+    (hnc : (if isNone valueN then false else isAttrValueConstant valueN) = false)
+    (hk : attrNameText nameN ≠ "key") (hr : attrNameText nameN ≠ "ref")
+    (hton : (o.transformOn && (attrNameText nameN == "on" || attrNameText nameN == "nativeOn")) = false) :
+    let r := (trAttrs o env false (pre ++ .mk .jsxAttr as [nameN, valueN] :: post) {} st).1
+    (attrNameText nameN = "class" → r.hasClass = true) ∧ (attrNameText nameN = "style" → r.hasStyle = true)
+      ∧ (attrNameText nameN ≠ "class" → attrNameText nameN ≠ "style" → attrNameText nameN ∈ r.dynamicProps) := by
+  simp only [trAttrs_append]
+  rw [trAttrs_cons]
+  generalize (lowerOf o env (.mk .jsxAttr as [nameN, valueN]) (trAttrs o env false pre {} st).2).1 = l
+  generalize (lowerOf o env (.mk .jsxAttr as [nameN, valueN]) (trAttrs o env false pre {} st).2).2 = st1
+  have hstep := attrStep_cover o as nameN valueN l (trAttrs o env false pre {} st).1 st1 hplain hnc hk hr hton
+  have hm := trAttrs_mono o env false post (attrStep o false (.mk .jsxAttr as [nameN, valueN]) l (trAttrs o env false pre {} st).1 st1).1
+    (attrStep o false (.mk .jsxAttr as [nameN, valueN]) l (trAttrs o env false pre {} st).1 st1).2
+  simp only at hstep
+  exact ⟨fun hn => hm.2.1 (hstep.1 hn), fun hn => hm.2.2.1 (hstep.2.1 hn), fun h1 h2 => hm.2.2.2 _ (hstep.2.2 h1 h2)⟩
+
+/-- … and therefore by the emitted FLAG: FULL_PROPS, or the CLASS / STYLE / PROPS bit of the attribute. -/
+theorem C13_cover_whole_element_flag (o : Opts) (env : Env) (pre post : List Node) (as : List String) (nameN valueN : Node) (st : St)
+    (hplain : isDirectiveAttrName (attrNameOf nameN) = false)
+    (hnc : (if isNone valueN then false else isAttrValueConstant valueN) = false)
+    (hk : attrNameText nameN ≠ "key") (hr : attrNameText nameN ≠ "ref")
+    (hton : (o.transformOn && (attrNameText nameN == "on" || attrNameText nameN == "nativeOn")) = false) :
+    let r := (trAttrs o env false (pre ++ .mk .jsxAttr as [nameN, valueN] :: post) {} st).1
+    r.hasDynamicKeys = true ∨
+      ((attrNameText nameN = "class" → r.hasClass = true) ∧ (attrNameText nameN = "style" → r.hasStyle = true)
+        ∧ (attrNameText nameN ≠ "class" → attrNameText nameN ≠ "style" → r.dynamicProps ≠ [] ∧ attrNameText nameN ∈ r.dynamicProps)) := by
+  have h := C13_cover_whole_element o env pre post as nameN valueN st hplain hnc hk hr hton
+  simp only at h ⊢
+  right
+  refine ⟨h.1, h.2.1, fun h1 h2 => ?_⟩
+  have hm := h.2.2 h1 h2
+  exact ⟨fun he => by rw [he] at hm; simp at hm, hm⟩
+
 end VueJsx
